@@ -86,6 +86,14 @@ def check_static(fname, acc):
                         dist = a.id != b.id or _disjoint(a, b)
                         ev(dist, 'ambiguous-siblings:%s:%s:%s@%d' % (fname, mapmodel.path(n), a.id, pos), a,
                            'segments %s and %s at position %d cannot be told apart by id and qualifier' % (a.id, b.id, pos))
+            # positions are well formed: a child declared after another does not stand before it (the loader orders by position
+            # and the walker only looks forward, so such a child can never follow its earlier-declared sibling in a document)
+            prev = None
+            for c in sorted(n.children, key=lambda x: getattr(x, 'decl', 0)):
+                if prev is not None:
+                    ev(c.pos >= prev.pos, 'position-order:%s:%s/%s' % (fname, mapmodel.path(n), c.id), c,
+                       '%s (pos %d) is declared after %s (pos %d)' % (c.id, c.pos, prev.id, prev.pos))
+                prev = c
             paths = {}
             for c in n.children:
                 if c.kind == 'loop':
@@ -109,6 +117,11 @@ def check_static(fname, acc):
             ev(n.de in de, 'dangling-data-element:%s:%s' % (fname, n.de), n, '%s refers to data element %r which dataele.xml does not define' % (n.id, n.de))
             if n.ext is not None:
                 ev(n.ext in cs, 'dangling-code-set:%s:%s' % (fname, n.ext), n, '%s refers to external code set %r which codes.xml does not define' % (n.id, n.ext))
+            if n.de in de and n.codes and n.usage != 'N':
+                lo_, hi_ = de[n.de][1], de[n.de][2]
+                bad = [c for c in n.codes if not (lo_ <= len(c) <= hi_) or c != c.rstrip(' ')]
+                ev(not bad, 'code-does-not-fit-its-element:%s:%s' % (fname, mapmodel.path(n)), n,
+                   'listed code(s) %r can never be a value of %s (length %d..%d, no trailing blank)' % (bad[:4], n.id, lo_, hi_))
             if n.regex:
                 try:
                     re.compile(n.regex)
